@@ -391,6 +391,51 @@ func checkC09(c c09Case) verdict {
 			}
 		}
 	}
+	// presentations: the way people type or paste a code — two groups separated by a blank or a dash, a trailing line break,
+	// full-width digits, quotes. On a tree that takes codes literally these are refused at once, whatever they contain; on
+	// one that reads them leniently the digits they carry meet the expected code on another path, and that path must not
+	// exit early either: "the expected code is only ever compared with caller-supplied data by a constant-time equality".
+	{
+		d := len(e)
+		forms := []func(string) string{
+			func(x string) string { return x[:d/2] + " " + x[d/2:] },
+			func(x string) string { return x[:d/2] + "-" + x[d/2:] },
+			func(x string) string { return x + "\n" },
+			func(x string) string {
+				var sb strings.Builder
+				for _, ch := range x {
+					sb.WriteRune(0xFF10 + (ch - '0'))
+				}
+				return sb.String()
+			},
+			func(x string) string { return " " + x },
+		}
+		for fi, form := range forms {
+			baseP := form(string(un))
+			bcall := c.prepare(baseP)
+			pbase := traced(func() { bcall() })
+			for _, k := range []int{1, d / 2, d - 1} {
+				code := form(wrongCode(e, k, 0, c.Salt+uint64(k), window))
+				var accepted bool
+				call := c.prepare(code)
+				tr := traced(func() { accepted = call() })
+				if accepted {
+					continue // C03 / C06 judge what is accepted; a lenient tree may accept nothing wrong here anyway
+				}
+				if t := c.taintOf(tr.str, code, window, digests); t != "" {
+					return bad(true, labels, "%s: %s (submitted %q, expected %s, %d leading digits correct, typed form %d)", c.Entry, t, code, e, k, fi)
+				}
+				if !bytes.Equal(tr.blk, pbase.blk) && blocksDependOnCode(c, code, baseP) {
+					n, first := diffBlocks(tr.blk, pbase.blk)
+					return bad(true, labels, "%s: the work done to reject a code in typed form depends on how many of its leading digits are correct: with %d correct (submitted %q, expected %s) %d basic blocks are executed a different number of times than with none correct (%q; block counters %v ...), in six paired repetitions", c.Entry, k, code, e, n, baseP, first)
+				}
+				if tr.vec != pbase.vec && consistentlyDiffers(c, code, baseP) {
+					return bad(true, labels, "%s: the comparison trace of rejecting a code in typed form depends on how many of its leading digits are correct: %d correct (submitted %q, expected %s) gives events %v, none correct (%q) gives %v", c.Entry, k, code, e, tr.vec, baseP, pbase.vec)
+				}
+			}
+		}
+		labels = append(labels, "typed-forms")
+	}
 	// sequences: the codes of this and the next one or two counters / steps written one after the other (2d or 3d
 	// characters; RFC 4226 resynchronisation sends such a sequence). On a tree that knows nothing of sequences these are
 	// refused for their length at once; on one that accepts them, checking value by value and stopping at the first wrong
@@ -483,7 +528,7 @@ func consistentlyDiffers(c c09Case, code, baseCode string) bool {
 }
 
 var c09Main = newPart("C09", "traces",
-	"rapid: validation entry points {ValidateHOTP, ValidateTOTP, ValidateOCRA, ValidateOTPWasm (js/wasm file compiled natively through an overlay), the binding's own validateHOTP / validateTOTP (wasm/main.go compiled natively against a stand-in syscall/js and called through the functions it registers), REST /hotp/validate, /totp/validate, /ocra/validate driven in-process} x keys x counters/instants x digits 6..10 (OCRA: registered suites) x hashes x windows 0..3; for each, the family of wrong codes sharing exactly k = 0..d-1 leading characters with the expected code E (two tails each), traced with the compiler's libFuzzer comparison instrumentation of the library, the REST layer, bytes, strings, slices, reflect, crypto/subtle and crypto/internal/fips140/subtle; oracles: (A) no string-comparison event has an operand equal to E, to any acceptable code of the window, to a >=3-character fragment of one that the submitted code does not contain, or to the HMAC digest (raw/hex); (B) the vector of event counts per kind is identical for all k and equal to that of a wrong code with no matching position; (D) the execution counters of every basic-block edge of the instrumented packages (the compiler's 8-bit coverage counters, zeroed before and read after the call) are identical for all k, judged like (C) only when the reference code's profile is reproducible; (C) the durations handed to time.Sleep and to the timer constructors during the call (hook added to package time by the build overlay) are the same for all k, judged only when the reference code's durations are stable over repeated runs; a planted ==, a planted early-exit byte loop, a planted 3 us sleep and a planted 7 us timer must be seen before every run; non-trivial = every case (each has k >= 1 members)",
+	"rapid: validation entry points {ValidateHOTP, ValidateTOTP, ValidateOCRA, ValidateOTPWasm (js/wasm file compiled natively through an overlay), the binding's own validateHOTP / validateTOTP (wasm/main.go compiled natively against a stand-in syscall/js and called through the functions it registers), REST /hotp/validate, /totp/validate, /ocra/validate driven in-process} x keys x counters/instants x digits 6..10 (OCRA: registered suites) x hashes x windows 0..3; for each, the family of wrong codes sharing exactly k = 0..d-1 leading characters with the expected code E (two tails each; also in typed forms — grouped by a blank or dash, with a trailing line break, in full-width digits, with a leading blank — compared among themselves), traced with the compiler's libFuzzer comparison instrumentation of the library, the REST layer, bytes, strings, slices, reflect, crypto/subtle and crypto/internal/fips140/subtle; oracles: (A) no string-comparison event has an operand equal to E, to any acceptable code of the window, to a >=3-character fragment of one that the submitted code does not contain, or to the HMAC digest (raw/hex); (B) the vector of event counts per kind is identical for all k and equal to that of a wrong code with no matching position; (D) the execution counters of every basic-block edge of the instrumented packages (the compiler's 8-bit coverage counters, zeroed before and read after the call) are identical for all k, judged like (C) only when the reference code's profile is reproducible; (C) the durations handed to time.Sleep and to the timer constructors during the call (hook added to package time by the build overlay) are the same for all k, judged only when the reference code's durations are stable over repeated runs; a planted ==, a planted early-exit byte loop, a planted 3 us sleep and a planted 7 us timer must be seen before every run; non-trivial = every case (each has k >= 1 members)",
 	checkC09)
 
 func genC09(t *rapid.T) c09Case {
